@@ -345,7 +345,10 @@ class SR:
     def __ne__(self, o):
         return self._cmp(o, lambda a, b: a != b, lambda a, b: a != b, nanresult=True)
 
-    __hash__ = None
+    def __hash__(self):
+        if self.is_const:
+            return hash(self.v)     # equal to the hash of the equal int/float
+        raise TypeError("unhashable: symbolic real")
 
     def __bool__(self):
         r = self != 0
